@@ -39,6 +39,19 @@ CHECKS = {
         technique='bounded runtime contracts (query-by-query comparison with a fresh tree, cache pre-population); '
                   'not a proof',
         ref='DESIGN.md section 4 C02'),
+    'C04': dict(
+        category='proof',
+        text='Proof of the frame of the text kernel: every structured edit changes text only through _put_src, and '
+             '_put_src is proved (for all line lists, rectangles and put lines) to leave every line before the span '
+             'and after it untouched and in order, to keep the prefix of the first and the suffix of the last touched '
+             'line, and to change the line count by exactly the difference. Which rectangle a handler chooses (the '
+             'element, its separator, the trivia the option selects) is bounded: token-level frame check - '
+             'identifiers, literals and comments outside the element unchanged and in order, with trivia=() and the '
+             'default - over statement and expression nodes of the corpus x {remove, 4 donors, own copy}.',
+        note=TB + BND + ' Undecided remainder: trivia selection and separator repair (bounded only).',
+        technique='contract-based deductive verification of the splice frame (z3, ropes/piecewise lists) + bounded '
+                  'token-level frame contracts on the public API',
+        ref='DESIGN.md section 4 C04'),
     'C05': dict(
         category='exploration',
         text='Bounded: every corpus program (thorough: + standard-library modules) built with FST(src) keeps its '
